@@ -7,6 +7,14 @@ HOOK_COMMITS = ["2c68a33", "da4e8eb"]
 
 # id -> (engine, level, technique, level text, level note)
 CHECKS = {
+ "C16": ("bubble", "exploration",
+         "real client.Client against a scripted router peer in a bubble; replies carry a token derived from the request id; adversarial reply order/duplicates/foreign ids; delays placed at the client's timers in virtual time; API-boundary oracles",
+         "runtime monitor at the client API boundary: 1-48 goroutines use one client concurrently (Subscribe/Unsubscribe/Register/Unregister/acknowledged Publish/Call/Call with progress/Call with cancelled or expiring context); the scripted router answers in permuted order, with duplicates and replies for ids nobody waits for, at 0, T/2, T-1ms, T, T+1ms relative to the response timeout and the contexts' deadlines (the tie is a real race between the timer and the receive goroutine inside the bubble); oracles by token equality and virtual timestamps: own reply and no other, success iff replied before the timeout, progress in order and none after return, exactly one CANCEL with the configured mode and the context's error; then INVOCATION/INTERRUPT/EVENT sequences with duplicate and stale ids: one handler run and one YIELD/ERROR per invocation, context cancelled on INTERRUPT, serial in-order event handlers; receive-loop-blocked detector, Close returns, no goroutine left",
+         "CallProgressive's sender side (progressive call invocations driven by the caller) is only exercised through Call; the scripted router always answers CANCEL (an unanswered CANCEL legitimately yields the reply-timeout error instead of the context's)"),
+ "C17": ("bubble", "exploration",
+         "real client.Client against a hostile scripted router in a bubble; hostile value pool in every field/detail/argument, optional serializer round trip for wire types; liveness probe after every burst; worker crash attribution by the driver",
+         "runtime monitor: after a normal setup (3 procedures, 2 subscriptions) and with 3-6 API calls left pending, the router sends bursts of 20-40 hostile messages (all 24 message types, templates with hostile values, payload-passthru details of every type, ids of pending requests/live invocations/unknown, duplicate and triplicate invocations, progressive chunks, wrong-type and duplicate replies placed at 0..3T around the client's timers); after each burst a new Subscribe answered properly must succeed and a valid INVOCATION must be answered (the client keeps processing), every API call must have returned, the receive goroutine must be back in its select; endings by GOODBYE/ABORT/drop (also mid-burst), Close answered/unanswered/with calls pending: Done() closed, later API calls return, Close returns, handler entries == exits, no client goroutine one virtual hour later; a panic in any client goroutine kills the worker and is attributed to the case",
+         "handlers used are well-behaved (return when their context ends, return promptly on progressive chunks); Close concurrent with API calls that have not yet sent their request is not exercised (the property speaks of router-side inputs); socket transports under the client are covered by C15, here messages are only round-tripped through the serializers"),
  "C15": ("bubble", "exploration",
          "incremental wire-stream checker on the puppet side, exhaustive rawsocket handshake tables (server side in the bubble, client side over loopback TCP), size-boundary/PING/cut/fault workloads, transport-differential replay",
          "runtime monitor: every byte the router writes to a rawsocket puppet is parsed by an independent incremental frame parser (malformed frame, frame above the announced limit, undecodable payload, loss or reordering are violations); the handshake is checked against a reference for every hello/reply of a 3x256x4 set (exhaustive); sizes limit-1/limit/limit+1 in both directions, PING/PONG during traffic, reserved frame types, a cut at every byte offset and websocket fake-connection faults must leave other sessions served; a generated scenario replayed over all 7 attachments must give the same canonical per-session observations",
